@@ -212,7 +212,7 @@ class Filtration(PoupoolActor):
         {"name": "overflow", "initial": "normal", "children": ["boost", "normal"]},
         "comfort",
         "sweep",
-        "reload",
+        {"name": "reload", "children": ["eco", "standby", "overflow"]},
         {"name": "wash", "initial": "backwash", "children": ["backwash", "rinse"]},
         {"name": "wintering", "initial": "waiting", "children": ["stir", "waiting"]},
     ]
@@ -246,7 +246,7 @@ class Filtration(PoupoolActor):
         # cannot start it on_exit of halt because when going from halt to wintering, the tank will
         # remain in the halt state.
         self.__machine.add_transition("eco", "halt", "eco", before=["arduino_start", "tank_start", "heating_start"])
-        self.__machine.add_transition("eco", ["reload", "wash_rinse"], "eco")
+        self.__machine.add_transition("eco", "wash_rinse", "eco")
         self.__machine.add_transition("closed", "closing", "eco")
         self.__machine.add_transition("eco_normal", ["eco_compute", "eco_waiting"], "eco_normal")
         self.__machine.add_transition("eco_tank", "eco_normal", "eco_tank", unless="tank_is_low")
@@ -262,7 +262,7 @@ class Filtration(PoupoolActor):
             "heating_delayed", "heating_delay_standby", "opening_standby", unless="tank_is_low"
         )
         self.__machine.add_transition("standby", ["eco", "closing"], "opening_standby", unless="tank_is_low")
-        self.__machine.add_transition("standby", ["overflow", "sweep", "reload"], "standby")
+        self.__machine.add_transition("standby", ["overflow", "sweep"], "standby")
         self.__machine.add_transition("standby", "comfort", "standby", unless="pump_stopped_in_standby")
         self.__machine.add_transition("standby", "standby_boost", "standby_normal")
         # Allow manual boost mode
@@ -275,7 +275,7 @@ class Filtration(PoupoolActor):
         # The tank became low during the delay, the pool cannot be opened: back to eco
         self.__machine.add_transition("heating_delayed", ["heating_delay_standby", "heating_delay_overflow"], "eco")
         self.__machine.add_transition("overflow", ["eco", "closing"], "opening_overflow", unless="tank_is_low")
-        self.__machine.add_transition("overflow", ["standby", "comfort", "reload"], "overflow")
+        self.__machine.add_transition("overflow", ["standby", "comfort"], "overflow")
         self.__machine.add_transition("overflow", "overflow_boost", "overflow_normal")
         # Allow manual boost mode
         self.__machine.add_transition("overflow", "overflow_normal", "overflow_boost")
@@ -313,8 +313,14 @@ class Filtration(PoupoolActor):
         # cases, we can change settings that needs to reload the same state. However, a transition
         # to the same state does not result in on_exit/on_enter being called again (sounds logic
         # since there is actually no state change). So we jump to the reload state and back to
-        # workaround this.
-        self.__machine.add_transition("reload", ["eco", "standby", "overflow"], "reload")
+        # workaround this. There is one reload state per mode so that we always jump back into the
+        # mode we came from, whatever request is processed in between.
+        self.__machine.add_transition("reload", "eco", "reload_eco")
+        self.__machine.add_transition("reload", "standby", "reload_standby")
+        self.__machine.add_transition("reload", "overflow", "reload_overflow")
+        self.__machine.add_transition("reloaded", "reload_eco", "eco")
+        self.__machine.add_transition("reloaded", "reload_standby", "standby")
+        self.__machine.add_transition("reloaded", "reload_overflow", "overflow")
         # Export the FSM
         from transitions.extensions import HierarchicalGraphMachine
 
@@ -324,9 +330,8 @@ class Filtration(PoupoolActor):
 
     def __reload_eco(self):
         if self.is_eco(allow_substates=True):
-            # Jump to the reload state so that we can jump back into the same state
+            # Jump to the reload state, it jumps back into the same state
             self._proxy.reload.defer()
-            self._proxy.eco.defer()
 
     def duration(self, value):
         current_duration = self.__eco_mode.filtration.duration
@@ -373,25 +378,22 @@ class Filtration(PoupoolActor):
         self.__speed_eco = value
         logger.info(f"Speed for eco mode set to: {self.__speed_eco}")
         if self.is_eco_normal():
-            # Jump to the reload state so that we can jump back into standby mode
+            # Jump to the reload state, it jumps back into the same state
             self._proxy.reload.defer()
-            self._proxy.eco.defer()
 
     def speed_standby(self, value):
         self.__speed_standby = value
         logger.info(f"Speed for standby mode set to: {self.__speed_standby}")
         if self.is_standby_normal():
-            # Jump to the reload state so that we can jump back into standby mode
+            # Jump to the reload state, it jumps back into the same state
             self._proxy.reload.defer()
-            self._proxy.standby.defer()
 
     def speed_overflow(self, value):
         self.__speed_overflow = value
         logger.info(f"Speed for overflow mode set to: {self.__speed_overflow}")
         if self.is_overflow_normal():
-            # Jump to the reload state so that we can jump back into overflow mode
+            # Jump to the reload state, it jumps back into the same state
             self._proxy.reload.defer()
-            self._proxy.overflow.defer()
 
     def overflow_in_comfort(self, value):
         self.__overflow_in_comfort = value
@@ -501,6 +503,10 @@ class Filtration(PoupoolActor):
         self.__devices.get_valve("backwash").off()
         self.__devices.get_valve("tank").off()
         self.__devices.get_valve("drain").off()
+
+    def on_enter_reload(self):
+        # Jump back into the mode we came from
+        self._proxy.reloaded.defer()
 
     def on_exit_halt(self):
         logger.info("Exiting halt state")
